@@ -51,8 +51,7 @@ Definition o_getslice (lo hi : option Z) (s : list qrow) obs : bool := obs_is (m
 Definition o_concat (n : nat) (ss : list (list qrow)) obs : bool := obs_is (concatenate n ss) obs.
 (* timestamps outside the quantifier (not increasing, NaN inside, negative): the oracle is silent *)
 Definition o_normtime (s : list qrow) (tss : list (list (option Z))) obs : bool :=
-  if forallb times_ok tss && Nat.eqb (length s) (length tss)
-     && existsb (existsb (fun t => match t with Some _ => true | None => false end)) tss then obs_is (normalize_time s tss) obs else true.
+  if forallb times_ok tss && Nat.eqb (length s) (length tss) && has_time tss then obs_is (normalize_time s tss) obs else true.
 Definition o_setdepth (d : nat) (s : list qrow) obs : bool := obs_is (set_depth d s) obs.
 Definition o_downsample (by_ : nat) (s : list qrow) obs : bool :=
   match by_ with O => true | _ => obs_is (downsample by_ s) obs end.
@@ -68,12 +67,7 @@ Definition o_z (sds : list (option Q)) (s : list qrow) obs : bool :=
   | Some o =>
       Nat.eqb (length o) (length s) && Nat.eqb (length sds) (length s) &&
       forallb (fun t => match t with
-                        | (Some sd, r, orow) =>
-                            match nanvar r with
-                            | Some v => Qeq_bool (sd * sd) v && Qle_bool 0 sd && negb (Qeq_bool sd 0)
-                                        && row_eqb (z_row sd r) orow
-                            | None => false
-                            end
+                        | (Some sd, r, orow) => is_std sd r && row_eqb (z_row sd r) orow
                         | (None, _, _) => true
                         end) (combine (combine sds s) o)
   end.
